@@ -32,6 +32,56 @@ def scope_axioms(n):
     return out
 
 
+_SYMS = {}
+
+
+def _symbols(e):
+    """Names of the uninterpreted symbols (functions and constants) occurring in a z3 expression (memoised per AST id)."""
+    key = e.get_id()
+    if key in _SYMS:
+        return _SYMS[key][1]
+    out, todo, seen = set(), [e], set()
+    while todo:
+        x = todo.pop()
+        i = x.get_id()
+        if i in seen:
+            continue
+        seen.add(i)
+        if z3.is_quantifier(x):
+            todo.append(x.body())
+        elif z3.is_app(x):
+            if x.decl().kind() == z3.Z3_OP_UNINTERPRETED:
+                out.add(x.decl().name())
+            todo.extend(x.children())
+    _SYMS[key] = (e, out)   # keep e alive: AST ids are reused after garbage collection
+    return out
+
+
+def relevant_hyps(o):
+    """The path condition plus only those definitional axioms whose defined symbol occurs (transitively) in the obligation. The axioms are conservative
+    extensions (fresh set constants, pure-function symbols, set-valued spec functions), so dropping the unused ones preserves satisfiability in both directions;
+    used for the COUNTER-MODEL search only (a model of the smaller text is a model of the full one after interpreting the dropped symbols by their definitions)."""
+    n_pc = getattr(o, "n_pc", len(o.hyps))
+    pc, axs = o.hyps[:n_pc], o.hyps[n_pc:]
+    defs = list(getattr(o, "ax_defs", [])) + [None] * len(axs)
+    syms = set()
+    for h in pc + [o.goal]:
+        syms |= _symbols(h)
+    keep = [d is None for d in defs[:len(axs)]]
+    for i, k in enumerate(keep):
+        if k:
+            syms |= _symbols(axs[i])
+    changed = True
+    while changed:
+        changed = False
+        for i, a in enumerate(axs):
+            if not keep[i] and defs[i] in syms:
+                keep[i] = True
+                syms |= _symbols(a)
+                changed = True
+    return pc + [a for a, k in zip(axs, keep) if k]
+
+
 def to_smt2(hyps, goal, cover=False, scope=None):
     s = z3.Solver()
     for h in hyps:
@@ -386,7 +436,7 @@ def solve_one(job):
 
 def discharge(obls, seed=0, thorough=False, procs=None):
     jobs = [(o.name, to_smt2(o.hyps, o.goal, o.cover, scope=(5 if o.cover else None)), o.cover, seed, thorough,
-             [] if o.cover else [(n, to_smt2(o.hyps, o.goal, False, scope=n)) for n in (3, 5)]) for o in obls]
+             [] if o.cover else [(n, to_smt2(relevant_hyps(o), o.goal, False, scope=n)) for n in (3, 5)]) for o in obls]
     if not jobs:
         return []
     procs = procs or min(16, max(1, len(jobs)))
